@@ -184,6 +184,26 @@ def run_item(item):
             if not is_deliberate(e):
                 viol("contains-error", "operand _contains raised %s" % exc_sig(e), {"ast": a})
 
+    # (v) the same expression over a space of ONE-dimensional variables (x, x_b[, x_c]) and query points whose columns are
+    #     STORED in the reverse order: membership goes by variable name, so the answers are the same
+    if same_space and sum(d for _, d in G.space_vars(a)) >= 2:
+        try:
+            Dt = Bd.build_tp(a, split=True)
+            var0 = G.space_vars(a)[0][0]
+            dim0 = G.space_vars(a)[0][1]
+            cols = P_all.as_tensor
+            coordsr = {var0 + Bd.SPLIT_SUFFIX[i]: cols[:, i:i + 1].clone() for i in reversed(range(dim0))}
+            Pr = Points.from_coordinates(coordsr)
+            res["transitions"] += 1
+            lt = _truth(_contains(Dt, Pr, R_all), n)
+            if lt is None or ((lt != lib) & dec).any():
+                i = int(np.where((lt != lib) & dec)[0][0]) if lt is not None else 0
+                viol("variable-order-dependence", "over the space %s with the query columns stored as %s, %d answer(s) differ from the single-variable form, e.g. at %s" % (
+                    list(Dt.space.keys()), list(coordsr.keys()), int(((lt != lib) & dec).sum()) if lt is not None else -1, allp[i].tolist()), {"ast": a})
+        except Exception as e:
+            if not is_deliberate(e):
+                viol("contains-error", "split-variable form raised %s: %s" % (exc_sig(e), str(e)[:160]), {"ast": a}, flavor="split")
+
     # (iv) row independence: permuted rows and single-theta sub-batches give the same answers
     perm = np.random.RandomState(1).permutation(n)
     lp = _truth(call(D, perm), n)
